@@ -55,7 +55,9 @@ class Shape:
 
 def f32(x): return struct.unpack('<f', struct.pack('<f', x))[0]
 
-RATES = [(100.0, 1000.0), (100.0, 100.0), (50.0, 150.0), (60.0, 120.0), (1.0, 4.0), (200.0, 200.0), (29.97, 59.94), (100.0, 250.0)]
+RATES = [(100.0, 1000.0), (100.0, 100.0), (50.0, 150.0), (60.0, 120.0), (1.0, 4.0), (200.0, 200.0), (29.97, 59.94), (100.0, 250.0),
+         # fractional point rates: the quotient of the rates is not the quotient of their integer parts (2.5/10 -> 4, not 10/2)
+         (2.5, 10.0), (1.5, 3.0), (1.5, 4.5), (2.5, 5.0)]
 
 class Builder:
     """Builds a conforming history: declare, set rates, frames of the declared shape, columns.
@@ -210,7 +212,7 @@ def op_records(lines, outlines):
         r = OpRec(); r.line = ln; r.out = out; r.before = last; r.after = None; r.index = k
         recs.append(r)
         c = ln.split(' ', 1)[0]
-        if c in ('frame', 'frameR', 'point', 'analog', 'pointcol', 'analogcol', 'pointcolR', 'analogcolR', 'param', 'lock', 'unlock', 'new', 'load', 'loadx'):
+        if c in ('frame', 'frameR', 'frameD', 'point', 'analog', 'pointcol', 'analogcol', 'pointcolR', 'analogcolR', 'param', 'lock', 'unlock', 'new', 'load', 'loadx'):
             pending = [r]
         # caller-side commands (P.*, F.*) do not touch the object: keep 'last'
     return recs
